@@ -1,7 +1,7 @@
 (** C15_pool. Reads never wait for the sketch; access records are counted or dropped: every interleaving of any number of readers, buffers and the consumer
     This file only pins statements: every theorem restates a lemma of proofs/ verbatim and is closed by it. *)
-From CacheD Require Import Base PoolProto.
-From CacheD.proofs Require Import PoolProofs.
+From CacheD Require Import Base PoolProto PoolRun.
+From CacheD.proofs Require Import PoolProofs PoolRunProofs.
 
 (** conservation at every instant of every interleaving, for every buffer capacity, channel capacity, number of
    readers and choice of buffers *)
@@ -39,4 +39,20 @@ Theorem C15_reader_never_waits_for_consumer :
                  (exists h', rpc_of s r' = RLocked h' i \/ rpc_of s r' = RDrained h' i \/ rpc_of s r' = RPushed i).
 Proof. exact reader_never_waits_for_consumer. Qed.
 Print Assumptions C15_reader_never_waits_for_consumer.
+
+(** (C15): at every state the action-level correspondence observes on the model side - after any number of groups
+   of reader actions, for every buffer and channel capacity - every counted hit is in flight, buffered, handed over or
+   counted as dropped: none is lost, none counted twice *)
+Theorem C15_pool_trace_hits_conserved :
+  forall cap cc groups st,
+  In st (ptrace (pinit cap cc) groups) -> q_hits st = in_flight st + buffered st + q_added st + q_dropped st.
+Proof. exact pool_trace_hits_conserved. Qed.
+Print Assumptions C15_pool_trace_hits_conserved.
+
+(** (C15): and no buffer ever holds more than its capacity *)
+Theorem C15_pool_trace_bounded :
+  forall cap cc groups st i, 1 <= cap -> 0 <= cc ->
+  In st (ptrace (pinit cap cc) groups) -> Z.of_nat (length (buf st i)) <= cap.
+Proof. exact pool_trace_bounded. Qed.
+Print Assumptions C15_pool_trace_bounded.
 
